@@ -838,6 +838,10 @@ fn c07_sketch_amortisation_update() {
 //@ timeout: 900
 //@ functions: frequencies::FrequentItemsSketch::maybe_resize_or_purge
 //@ stubs: map operations -> contracts over the abstract counter array
+//@ replay_stub: frequencies/reverse_purge_item_hash_map.rs | pub fn get(&self, key: &T) -> u64 { | if self.load_threshold == self::verif_kani_frequencies_map::ABS_TAG { return self::verif_kani_frequencies_map::abs_get(self, key); }
+//@ replay_stub: frequencies/reverse_purge_item_hash_map.rs | pub fn adjust_or_put_value(&mut self, key: T, adjust_amount: u64) { | if self.load_threshold == self::verif_kani_frequencies_map::ABS_TAG { return self::verif_kani_frequencies_map::abs_adjust_or_put_value(self, key, adjust_amount); }
+//@ replay_stub: frequencies/reverse_purge_item_hash_map.rs | pub fn purge(&mut self, sample_size: usize) -> u64 { | if self.load_threshold == self::verif_kani_frequencies_map::ABS_TAG { return self::verif_kani_frequencies_map::abs_purge(self, sample_size); }
+//@ replay_stub: frequencies/reverse_purge_item_hash_map.rs | pub fn num_active(&self) -> usize { | if self.load_threshold == self::verif_kani_frequencies_map::ABS_TAG { return self::verif_kani_frequencies_map::abs_num_active(self); }
 //@ bounds: the abstract state right before a purge: 7 tracked keys, counters sorted ascending (without loss of generality: the statement only involves the multiset of counters), counters / offset < 2^8
 //@ assumes: 3*maximum_error + sum(counters) <= total_weight before the purge
 //@ replay_stub: frequencies/reverse_purge_item_hash_map.rs | pub fn purge(&mut self, sample_size: usize) -> u64 { | return self::verif_kani_frequencies_map::abs_purge(self, sample_size);
